@@ -51,6 +51,13 @@ func planSubQueries(opts *Opts, query *sql.Query) (func(ctx context.Context) ([]
 			sqResultCh := make(chan *sqResult)
 			sqResultChs <- sqResultCh
 			go func() {
+				// a panic while collecting the subquery's values (e.g. a dimension
+				// value that cannot be a map key) must fail the query, not the process
+				defer func() {
+					if p := recover(); p != nil {
+						sqResultCh <- &sqResult{nil, fmt.Errorf("Unable to run subquery: %v", p)}
+					}
+				}()
 				var mx sync.Mutex
 				uniques := make(map[interface{}]bool, 0)
 				sqPlan := subQueryPlans[i]
